@@ -13,19 +13,22 @@ MANIFEST_ENTRY = {
     "text": "Lean 4 theorems: the LR model reports a syntax error exactly where layout skipping from the end of the "
             "shifted tokens arrives and the shifted tokens are token edges deriving the stack symbols "
             "(C10_lr_error_position, all wf tables/inputs/recognizers); (line, column) is inverted by "
-            "lineColToPos for every text and position (C10_linecol_inverse). Per non-sentence: exception type, "
-            "position vs the executable viable-prefix spec (end of the longest viable token prefix + layout), "
+            "lineColToPos for every text and position (C10_linecol_inverse); the viable-prefix oracle lists exactly "
+            "the positions that end a token path beginning a sentential form of the start symbol, for every grammar "
+            "and input once its charts saturate (C10_viable_ends_correct). Per non-sentence: exception type, "
+            "position vs that verified oracle (end of the longest viable token prefix + layout), "
             "LR = GLR and LALR = SLR positions, line/column vs the model, end-of-file wording, rendering, "
             "symbols_expected vs the spec's next-terminal set",
-    "note": "trusted: Lean kernel; Spec/Viable.lean (prefix chart on top of the proved chart) is executable spec, "
-            "its correctness is not proved; 'never early' and the expected set are therefore decided on the "
-            "explored scope; LR/scanner models validated by correspondence",
-    "technique": "Lean 4 proof (driver invariant, line/column inverse) + executable-spec oracle comparison",
+    "note": "trusted: Lean kernel; that the implementation's position equals the oracle's ('never early') and the "
+            "expected set are decided on the explored scope (they need lookahead completeness of the table); the "
+            "next-terminal oracle applies the verified prefix oracle to an extended input whose well-formedness is "
+            "not proved; LR/scanner models validated by correspondence",
+    "technique": "Lean 4 proof (driver invariant, line/column inverse, verified viable-prefix oracle) + oracle comparison on implementation output",
 }
 
 PROP = "C10"
 LEVEL = "proof"
-THEOREMS = ["C10_lr_error_position", "C10_linecol_inverse"]
+THEOREMS = ["C10_lr_error_position", "C10_linecol_inverse", "C10_viable_ends_correct"]
 META = {
     "rule": "cases = (productive grammar, LR|GLR, LALR|SLR, non-sentence input incl. empty string, trailing layout, "
             "multi-line); non-trivial = rejected input with error position > 0 or at end of input after >= 1 "
